@@ -115,14 +115,18 @@ theorem inv_gc_pc {c : Cfg} (h : CInv c) (pc : GcPc)
   ⟨h.be, h.ids, h.distinct, h.unwritten, h.written, h.registered, h.virginDoc, h.virginRepl, hvg, hc, ha, h.reclaim,
    h.flags, h.replShape⟩
 
+theorem inv_memo {c : Cfg} (h : CInv c) (m : List (Path × Option PayloadRef)) : CInv { c with gcMemo := m } :=
+  ⟨h.be, h.ids, h.distinct, h.unwritten, h.written, h.registered, h.virginDoc, h.virginRepl, h.virginGc, h.cands,
+   h.armed, h.reclaim, h.flags, h.replShape⟩
+
 theorem inv_gcList {c : Cfg} (h : CInv c) (cands : List BPath) : CInv (step c (.gcList cands)) := by
   simp only [step]
-  have key : (cands.all (fun p => isPayloadPath p && (aget c.be p).isSome)) = true → CInv { c with gc := .sweeping cands } := by
-    intro hall
-    apply inv_gc_pc h
-    · intro i t g p stage rest _ _ hpc; cases hpc
-    · intro p hp
-      simp only [gcCands] at hp
+  by_cases hall : (cands.all (fun p => isPayloadPath p && (aget c.be p).isSome)) = true
+  · simp only [hall, if_true]
+    -- what the guard says about a freshly listed candidate
+    have hnew : ∀ p, p ∈ cands → isPayloadPath p = true ∧ (∀ (k : Path) (g : Gen), p = .gen k g → g.id < c.nextId) ∧
+        (∀ (i : Nat) (t : Wr) (g : Gen), c.ws[i]? = some t → Pending t g → t.wbytes = none → p ≠ .gen t.k g) := by
+      intro p hp
       have := List.all_eq_true.1 hall p hp
       simp only [Bool.and_eq_true] at this
       refine ⟨this.1, ?_, ?_⟩
@@ -133,19 +137,27 @@ theorem inv_gcList {c : Cfg} (h : CInv c) (cands : List BPath) : CInv (step c (.
         subst hpg
         have := h.unwritten i t g hi hpend hw
         simp [this] at *
-    · intro p stage rest hpc; cases hpc
-  cases hgc : c.gc with
-  | cand p s r => exact h
-  | idle =>
-      simp only []
-      by_cases hall : (cands.all (fun p => isPayloadPath p && (aget c.be p).isSome)) = true
-      · simp only [hall, if_true]; exact key hall
-      · simp only [hall]; exact h
-  | sweeping cs =>
-      simp only []
-      by_cases hall : (cands.all (fun p => isPayloadPath p && (aget c.be p).isSome)) = true
-      · simp only [hall, if_true]; exact key hall
-      · simp only [hall]; exact h
+    cases hgc : c.gc with
+    | cand p s r => exact h
+    | idle =>
+        simp only []
+        have h1 : CInv { c with gc := .sweeping cands } := by
+          apply inv_gc_pc h
+          · intro i t g p stage rest _ _ hpc; cases hpc
+          · intro p hp; exact hnew p hp
+          · intro p stage rest hpc; cases hpc
+        exact inv_memo h1 []
+    | sweeping cs =>
+        simp only []
+        apply inv_gc_pc h
+        · intro i t g p stage rest _ _ hpc; cases hpc
+        · intro p hp
+          simp only [gcCands, List.mem_append] at hp
+          rcases hp with hp | hp
+          · exact h.cands p (by rw [hgc]; exact hp)
+          · exact hnew p hp
+        · intro p stage rest hpc; cases hpc
+  · simp only [hall]; exact h
 
 /-- the per-candidate program in the order read from the source -/
 theorem gcCheck_std (c : Cfg) (p : BPath) (stage : Nat) (rest : List BPath) :
@@ -155,11 +167,11 @@ theorem gcCheck_std (c : Cfg) (p : BPath) (stage : Nat) (rest : List BPath) :
       | 1 => if isReferenced c.be p then { c with gc := .sweeping rest } else { c with gc := .cand p 2 rest }
       | 2 => { c with be := adel c.be p, gc := .sweeping rest }
       | _ => { c with gc := .sweeping rest } := by
-  unfold gcCheck
+  unfold gcCheck gcRecheck
   rw [gen_gc_candidate_order]
   match stage with
   | 0 => rfl
-  | 1 => rfl
+  | 1 => simp [gen_gc_recheck_per_candidate]
   | 2 => rfl
   | n + 3 => simp
 
